@@ -4,7 +4,7 @@ CONSTANTS
   Samples = 2
   Nil = Nil
   CostSet = {1, 2, 3}
-  MaxSet = {2, 4}
+  MaxSet = {0, 2, 4}
   EstSet = {0, 1}
   MaxOps = 5
 INVARIANTS UsedIsSum Bounded AdmissionBound RoomMeansNoVictims RoundOnlyWhenLacking VictimsGone VictimsNoMorePopular NotAddedNotCharged
